@@ -307,12 +307,12 @@ theorem progRegistry_eq_regUpTo_append (pre : Registry) (p : List ProgFile) (i :
 /-! ### closed programs -/
 
 /-- the name of a data reference -/
-def refName : TypeRef → Option String
+def dataRefName : TypeRef → Option String
   | .data name _ _ _ => some name
   | .fn .. => none
 
 /-- the names written in a declaration: its data references at any depth -/
-def refNames (d : Decl) : List String := ((topTypes d).flatMap dataNodesT).filterMap refName
+def refNames (d : Decl) : List String := ((topTypes d).flatMap dataNodesT).filterMap dataRefName
 
 theorem mem_refNames (d : Decl) (name : String) :
     name ∈ refNames d ↔ ∃ args o pos, TypeRef.data name args o pos ∈ (topTypes d).flatMap dataNodesT := by
@@ -322,10 +322,10 @@ theorem mem_refNames (d : Decl) (name : String) :
   · rintro ⟨t, ht, hn⟩
     cases t with
     | data n args o pos =>
-      simp only [refName, Option.some.injEq] at hn
+      simp only [dataRefName, Option.some.injEq] at hn
       subst hn
       exact ⟨args, o, pos, ht⟩
-    | fn sig pos => simp [refName] at hn
+    | fn sig pos => simp [dataRefName] at hn
   · rintro ⟨args, o, pos, ht⟩
     exact ⟨_, ht, rfl⟩
 
@@ -423,5 +423,100 @@ theorem split_invariance_accepted (keys dd : List String) (pre : Registry) (p p'
   rw [violationsOrdered_eq_violations_of_closed keys dd pre p hc,
     violationsOrdered_eq_violations_of_closed keys dd pre p' hc']
   exact accepted_perm keys dd pre p p' h hc.1
+
+/-! ### non-vacuity -/
+
+namespace C11ClosedExamples
+
+def pz : Pos := ⟨0, 0, 0, 0⟩
+def pAt (l c : Nat) : Pos := ⟨l, c, l, c + 1⟩
+def preB : Registry := [{ key := "i32", prim := .primitive, arity := 0 }]
+
+/-- `lib` (imported, finished first): `e = error {}`, `r0 = record { x: e; }`;
+    `main`: `r1 = record { y: r0; z: nope; }` -/
+def closedProg : List ProgFile :=
+  [ { file := "lib.pydjinni", contents :=
+        [ .decl (.error "e" [] [] pz),
+          .decl (.record "r0" [] [] pz [⟨"x", .data "e" [] false (pAt 2 4), [], pz⟩] none pz) ] },
+    { file := "main.pydjinni", contents :=
+        [ .decl (.record "r1" [] [] pz
+            [⟨"y", .data "r0" [] false (pAt 1 4), [], pz⟩, ⟨"z", .data "nope" [] false (pAt 2 4), [], pz⟩] none pz) ] } ]
+
+/-- a two-file program that is dependency-closed … -/
+theorem closedProg_closed : Closed preB closedProg := by decide +kernel
+
+/-- … and has violations in both files (so the closed-split theorems are not vacuous) -/
+example : violationsOrdered ["cpp"] [] preB closedProg
+    = [mk "ParsingException" "field-error" "lib.pydjinni" (pAt 2 4),
+       mk "TypeResolvingException" "unknown-type" "main.pydjinni" (pAt 2 4)] := by decide +kernel
+
+example : violations ["cpp"] [] preB closedProg = violationsOrdered ["cpp"] [] preB closedProg :=
+  (violationsOrdered_eq_violations_of_closed _ _ _ _ closedProg_closed).symm
+
+/-- `lib` cut into two units (its declarations moved into a file of their own), still in dependency order -/
+def closedProgSplit : List ProgFile :=
+  [ { file := "lib.pydjinni", contents := [ .decl (.error "e" [] [] pz) ] },
+    { file := "lib.pydjinni", contents :=
+        [ .decl (.record "r0" [] [] pz [⟨"x", .data "e" [] false (pAt 2 4), [], pz⟩] none pz) ] },
+    { file := "main.pydjinni", contents :=
+        [ .decl (.record "r1" [] [] pz
+            [⟨"y", .data "r0" [] false (pAt 1 4), [], pz⟩, ⟨"z", .data "nope" [] false (pAt 2 4), [], pz⟩] none pz) ] } ]
+
+theorem closedProgSplit_closed : Closed preB closedProgSplit := by decide +kernel
+
+/-- `split_invariance` applies to the pair -/
+example : (violationsOrdered ["cpp"] [] preB closedProg).Perm (violationsOrdered ["cpp"] [] preB closedProgSplit) :=
+  split_invariance _ _ _ _ _ (List.Perm.of_eq (by rfl)) closedProg_closed closedProgSplit_closed
+
+/-- finishing `main` before the second half of `lib` is *not* closed (`r0` is declared later) -/
+example : ¬ Closed preB [closedProgSplit[0], closedProgSplit[2], closedProgSplit[1]] := by decide +kernel
+
+theorem split_a : "a".splitOn "." = ["a"] := by
+  simp only [String.splitOn]
+  rw [String.splitOnAux]
+  simp (decide := true)
+  rw [String.splitOnAux]
+  simp (decide := true)
+
+/-- `lib` (imported, finished first): `t = enum {}`, `namespace a { r = record { x: t; } }`;
+    `main` declares `namespace a { t = error {} }`, which captures the relative reference `t` of `lib`
+    in the whole-program reading -/
+def openProg : List ProgFile :=
+  [ { file := "lib.pydjinni", contents :=
+        [ .decl (.enum "t" [] [] pz),
+          .ns "a" [] [ .decl (.record "r" [] [] pz [⟨"x", .data "t" [] false (pAt 3 6), [], pz⟩] none pz) ] pz ] },
+    { file := "main.pydjinni", contents :=
+        [ .ns "a" [] [ .decl (.error "t" [] [] pz) ] pz ] } ]
+
+theorem openProg_decls : progDecls openProg =
+    [("lib.pydjinni", [], .enum "t" [] [] pz),
+     ("lib.pydjinni", ["a"], .record "r" [] [] pz [⟨"x", .data "t" [] false (pAt 3 6), [], pz⟩] none pz),
+     ("main.pydjinni", ["a"], .error "t" [] [] pz)] := by
+  simp [progDecls, openProg, declsOfContents, declsOfContent, split_a]
+
+/-- read file by file (as the implementation does) the program is accepted: `lib` binds `t` to the enum -/
+theorem openProg_ordered : violationsOrdered ["cpp"] [] preB openProg = [] := by
+  simp only [violationsOrdered, violationsFrom, openProg, regUpTo, progRegistry, progDecls, List.take,
+    List.flatMap_cons, List.flatMap_nil, declsOfContents, declsOfContent, split_a]
+  decide +kernel
+
+/-- read as a whole the field `x` has the error type `a.t` -/
+theorem openProg_whole :
+    violations ["cpp"] [] preB openProg = [mk "ParsingException" "field-error" "lib.pydjinni" (pAt 3 6)] := by
+  unfold violations progRegistry
+  rw [openProg_decls]
+  decide +kernel
+
+/-- **Without closedness the two readings differ.** -/
+example : violationsOrdered ["cpp"] [] preB openProg ≠ violations ["cpp"] [] preB openProg := by
+  rw [openProg_ordered, openProg_whole]; decide
+
+/-- so this program is not closed (registry keys are unique; it is the reference `t` of `lib` that escapes) -/
+example : ¬ Closed preB openProg := fun hc => by
+  have h := violationsOrdered_eq_violations_of_closed ["cpp"] [] preB openProg hc
+  rw [openProg_ordered, openProg_whole] at h
+  cases h
+
+end C11ClosedExamples
 
 end Pydjinni.Front
